@@ -11,7 +11,7 @@ E1_NOTE = ("Trusted: the harness' stub sidecar answers (restricted to what pkg/s
 CHECKS = {
  "C01": dict(engine="E1 stub-cycle", level="exploration", ref="DESIGN.md §5 C01",
    technique="runtime monitoring: recorded request log of real coordinator cycles judged by a set-algebra oracle (orphan / unjustified removal / crash)",
-   text="Real coordinator + real shard objects run single cycles against scripted sidecar reports (directed copy/state/load families + seeded random cases, each repeated for map order); every APIGet/APIPost/ChangeScale is recorded and the oracle checks that no discovered target reported by an in-sync shard is orphaned, every removal is justified by a vanished target or another in-sync reporter, and the cycle completes (panic, fatal error or 60 s hang of the child is a violation). Exploration is the right level: the input space (reports x options x orders) is unbounded, the oracle is exact per execution.",
+   text="Real coordinator + real shard objects run single cycles against scripted sidecar reports (directed copy/state/load families, a family of tail shards whose targets fit the front shards for some first-fit orders only (40 repetitions each) + seeded random cases, each repeated for map order); every APIGet/APIPost/ChangeScale is recorded and the oracle checks that no discovered target reported by an in-sync shard is orphaned, every removal is justified by a vanished target or another in-sync reporter, and the cycle completes (panic, fatal error or 60 s hang of the child is a violation). Exploration is the right level: the input space (reports x options x orders) is unbounded, the oracle is exact per execution.",
    note=E1_NOTE),
  "C04": dict(engine="E1 stub-cycle", level="exploration", ref="DESIGN.md §5 C04",
    technique="runtime monitoring: posted target lists vs. reported loads, arithmetic capacity oracle; boundary-biased workloads",
@@ -39,7 +39,7 @@ E3_NOTE = ("Trusted: the harness' in-memory / raw-TCP targets and its reading of
 CHECKS.update({
  "C09": dict(engine="E3 sidecar", level="fault_enumeration", ref="DESIGN.md §5 C09",
    technique="fault injection + state monitor: store write cut after every byte offset via RLIMIT_FSIZE in a child process, process killed inside the write via strace signal injection, SIGKILL of the real binary, repeated fresh Load() compared with previous/new assignment",
-   text="The fault space (pair of consecutive assignments x byte offset at which the store write stops) is finite and swept: thorough enumerates every offset for every ordered pair of 8 assignment shapes, quick every offset for four pairs and strided for the rest, plus the old-file-name fall-back path, plus a sweep in which the updating process is KILLED inside the store write (strace-injected SIGKILL, no clean-up code runs) followed by three restarts and an acknowledged follow-up update, a retry of the same update after a failed write (must then persist), plus SIGKILLs of the real `kvass sidecar` binary mid-update followed by a restart of the binary. Oracle: the next start succeeds and resumes exactly the previous or the new assignment (deep JSON equality incl. idle-since), the new one if the update was acknowledged.",
+   text="The fault space (pair of consecutive assignments x byte offset at which the store write stops) is finite and swept: thorough enumerates every offset for every ordered pair of 8 assignment shapes, quick every offset for four pairs and strided for the rest, plus the old-file-name fall-back path, plus a sweep in which the updating process is KILLED inside the store write (strace-injected SIGKILL, no clean-up code runs) followed by three restarts and an acknowledged follow-up update, a retry of the same update after a failed write (must then persist), every restart repeated with update callbacks that fail ('Prometheus not up yet': what is resumed must not depend on it), plus SIGKILLs of the real `kvass sidecar` binary mid-update followed by a restart of the binary. Oracle: the next start succeeds and resumes exactly the previous or the new assignment (deep JSON equality incl. idle-since), the new one if the update was acknowledged.",
    note=E3_NOTE + " A write cut by RLIMIT_FSIZE is taken to leave the disk as a kill / full disk at that byte would; fsync / power-loss semantics of the file system are out of scope."),
  "C10": dict(engine="E3 sidecar", level="exploration", ref="DESIGN.md §5 C10",
    technique="runtime monitoring against an executable reference model of (status map, idle-since) after every operation",
@@ -51,7 +51,7 @@ CHECKS.update({
    note=E3_NOTE),
  "C13": dict(engine="E3 sidecar", level="fault_enumeration", ref="DESIGN.md §5 C13",
    technique="fault injection at every stage and every body offset behind the real proxy; outcome monitor on the Prometheus side (status / aborted response) and on /targets/status/",
-   text="One fault per case, enumerated: connect error, five non-200 codes, stalls beyond the timeout before headers and mid body, administrative stop, administrative stop set or lifted while the real request is in flight (the attempt may count either way but consistently: complete 200 with the full body and health up, or a failed response and health down), body breaking off at EVERY wire offset (identity and gzip, three error kinds incl. 'connection reset by peer'), multi-block bodies at block boundaries, and real TCP faults (short Content-Length, cut chunked body, RST), each seen through an instrumented writer and through a real net/http hop. Oracle: the Prometheus side sees non-200 or an aborted response, never a complete 200; health down with an error; counter +1; then recovery to up.",
+   text="One fault per case, enumerated: connect error, five non-200 codes, stalls beyond the timeout before headers and mid body, administrative stop, administrative stop set or lifted while the real request is in flight (the attempt may count either way but consistently: complete 200 with the full body and health up, or a failed response and health down), a transfer beginning (normal -> in_transfer) while a scrape that ends differently from the previous one is in flight (status must show that scrape's outcome, counter 1), body breaking off at EVERY wire offset (identity and gzip, three error kinds incl. 'connection reset by peer'), multi-block bodies at block boundaries, and real TCP faults (short Content-Length, cut chunked body, RST), each seen through an instrumented writer and through a real net/http hop. Oracle: the Prometheus side sees non-200 or an aborted response, never a complete 200; health down with an error; counter +1; then recovery to up.",
    note=E3_NOTE + " A break after the whole content was delivered is also required to fail on the Prometheus side (Prometheus itself would fail such a scrape)."),
  "C14": dict(engine="E3 sidecar", level="exploration", ref="DESIGN.md §5 C14",
    technique="runtime monitoring against an arithmetic reference: payloads with per-sample relabel outcome known by construction; race detector on the statistics lock",
@@ -66,19 +66,19 @@ E4_NOTE = ("Trusted: the configuration / target-group generators (documented lim
 CHECKS.update({
  "C02": dict(engine="E4 config", level="exploration", ref="DESIGN.md §5 C02",
    technique="differential runtime monitoring: the real discovery -> sidecar API -> generated file -> Prometheus loader -> real proxy pipeline vs. the vendored Prometheus on the original config; observation point = request leaving JobInfo.Cli",
-   text="For generated configurations and target groups the set of (final target labels, scheme://host/path?sorted-query really requested by the proxy) obtained through the whole sharded pipeline - real TargetsDiscovery, JSON assignment to 1-3 real sidecars, generated file re-loaded with config.Load, scrape.TargetsFromGroup on its static entries, request through the real Proxy.ServeHTTP - must equal what scrape.TargetsFromGroup yields on the original configuration; the coordinator side is wired as cmd/kvass/coordinator.go does (scrape manager, explorer and discovery share one ConfigInfo): after the first comparison the explorer probes every active target (stub exporter) and the same groups are re-sent without a reload, then the configuration is reloaded with edited relabel programs / path / scheme on the same objects, explored and re-sent again - the comparison is repeated after each of the four phases. A differential oracle with the production Prometheus code as reference is the strongest oracle available for 'equivalent to one plain Prometheus'.",
+   text="For generated configurations and target groups the set of (final target labels, scheme://host/path?sorted-query really requested by the proxy) obtained through the whole sharded pipeline - real TargetsDiscovery, JSON assignment to 1-3 real sidecars, generated file re-loaded with config.Load, scrape.TargetsFromGroup on its static entries, request through the real Proxy.ServeHTTP - must equal what scrape.TargetsFromGroup yields on the original configuration; the coordinator side is wired as cmd/kvass/coordinator.go does (scrape manager, explorer and discovery share one ConfigInfo): after the first comparison the explorer probes every active target (stub exporter) and the same groups are re-sent without a reload, then the configuration is reloaded with edited relabel programs / path / scheme on the same objects, explored and re-sent again (the reload also changes a configured param value, and on one sidecar the write of the generated file fails once during it) - the comparison is repeated after each of the four phases. A differential oracle with the production Prometheus code as reference is the strongest oracle available for 'equivalent to one plain Prometheus'.",
    note=E4_NOTE),
  "C11": dict(engine="E4 config", level="exploration", ref="DESIGN.md §5 C11",
    technique="differential runtime monitoring: generated file re-loaded with the Prometheus loader and compared field-wise with the loaded original, reflective walk over all Secret values, byte scan for job secrets",
-   text="Generated configurations with every auth kind, SD kind, alerting and remote read/write sections with unique secrets are pushed through a real sidecar's API together with assignments (incl. empty jobs and targets of unknown jobs), then a reload changing only external labels, a second configuration and a changed assignment, the file being re-checked after each; the generated file must load, have the same jobs in order (+ the self-monitoring job iff enabled), static entries one-to-one with assigned hashes, http scheme, the sidecar's proxy URL, no basic-auth/TLS, no job secret in its bytes, unchanged ingestion settings, and unchanged global/rule/alerting/remote sections including every secret value. Overlap cases: a slow call (big configuration or big assignment) and a fast call of the other kind reach one sidecar 0-15 ms apart; when both have returned the file must show the configuration pushed and the assignment posted.",
+   text="Generated configurations with every auth kind, SD kind, alerting and remote read/write sections with unique secrets are pushed through a real sidecar's API together with assignments (incl. empty jobs and targets of unknown jobs), then a reload changing only external labels, a second configuration and a changed assignment, the file being re-checked after each; the generated file must load, have the same jobs in order (+ the self-monitoring job iff enabled), static entries one-to-one with assigned hashes, http scheme, the sidecar's proxy URL, no basic-auth/TLS, no job secret in its bytes, unchanged ingestion settings, and unchanged global/rule/alerting/remote sections including every secret value. Overlap cases: a slow call (big configuration or big assignment) and a fast call of the other kind reach one sidecar 0-15 ms apart; when both have returned the file must show the configuration pushed and the assignment posted. In a third of the cases the write of the generated file fails once during the second configuration push, after which the coordinator's usual actions must bring the file to that configuration; 4/24 cases restart the REAL `kvass sidecar` on its volume and read the file it generates.",
    note=E4_NOTE),
  "C15": dict(engine="E4 config", level="exploration", ref="DESIGN.md §5 C15",
    technique="runtime monitoring: bijection oracle between hashes and (labels, URL) over repeated rounds, permutations, label placement, fresh processes and single-component edits",
-   text="The real TargetsDiscovery is run on generated configurations and groups; across repeated rounds, three permutation modes, 1-3 fresh processes and up to 40 single-component edits per case the relation hash <-> (shipped labels, URL) must stay a bijection (reserved non-URL labels count as labels), the by-hash table must have one key per distinct target, a job's list may repeat a hash at most once per group, and equal inputs must give equal sets.",
+   text="The real TargetsDiscovery is run on generated configurations and groups; across repeated rounds, three permutation modes, 1-3 fresh processes and up to 40 single-component edits per case the relation hash <-> (shipped labels, URL) must stay a bijection (reserved non-URL labels count as labels; generated pairs of targets whose label values imitate a name/value boundary for eight separators must stay apart), the by-hash table must have one key per distinct target, a job's list may repeat a hash at most once per group, and equal inputs must give equal sets.",
    note=E4_NOTE),
  "C16": dict(engine="E4 config", level="exploration", ref="DESIGN.md §5 C16",
    technique="runtime monitoring: catalogue of single-setting edits (must change the hash) and re-renderings / external-label changes (must not), cross-process and through a sidecar's /runtimeinfo/",
-   text="For each generated configuration every applicable entry of a ~150-entry catalogue of single-setting edits must change the hash computed by the real ConfigManager, seven textual re-renderings and three external-label changes must not, the same bytes must hash identically whether loaded from a file in a nested directory (coordinator) or pushed as raw content (sidecar), in three fresh processes and inside a sidecar (as reported by /runtimeinfo/); a manager with an in-place rewriting reload callback (as cmd/kvass registers for its --inject options) must keep the content's hash through reload / stop reason set / repeated / cleared / reload, and so must the real `kvass sidecar --inject.kubernetes-sa-path=...` process (hash read from its /runtimeinfo/ after the same steps over HTTP).",
+   text="For each generated configuration every applicable entry of a ~150-entry catalogue of single-setting edits must change the hash computed by the real ConfigManager, seven textual re-renderings and three external-label changes must not, the same bytes must hash identically whether loaded from a file in a nested directory (coordinator) or pushed as raw content (sidecar), in three fresh processes and inside a sidecar (as reported by /runtimeinfo/); a manager with an in-place rewriting reload callback (as cmd/kvass registers for its --inject options) must keep the content's hash through reload / stop reason set / repeated / cleared / reload, and so must the real `kvass sidecar --inject.kubernetes-sa-path=...` process (hash read from its /runtimeinfo/ after the same steps over HTTP); and with two overlapping pushes (the old content held inside the first reload callback while the new one is pushed) the reported hash must be that of the configuration the downstream callback was last given.",
    note=E4_NOTE + " Pure list re-ordering is not asserted either way."),
 })
 
@@ -86,15 +86,15 @@ CHECKS.update({
 CHECKS.update({
  "C17": dict(engine="E5 discovery/explorer", level="exploration", ref="DESIGN.md §5 C17",
    technique="runtime monitoring: (1) reference-model monitor after every step, (2) recorded concurrent histories checked for linearizability with porcupine, (3) Go race detector with attribution to reader/writer pairs of the tables",
-   text="The real TargetsDiscovery and Explore, wired and fed as in cmd/kvass/coordinator.go, are driven with sequences of full updates, partial first rounds and reloads that add/remove/keep jobs. Monitor 1 compares all four read APIs with a reference model after every step - a third of the update runs are sent back to back (2-4 updates, nobody waits for the explorer in between) and judged after the last - and re-checks earlier snapshots; monitor 2 records reads of 4-8 concurrent goroutines against a single writer (unique version per update) and checks each short history with porcupine against a sequential job->version map (a kept job may never be missing); monitor 3 repeats such histories under -race; monitor 4 runs WaitInit against scripted first-round arrivals (it must not return before every configured job had its first round).",
+   text="The real TargetsDiscovery and Explore, wired and fed as in cmd/kvass/coordinator.go, are driven with sequences of full updates, partial first rounds and reloads that add/remove/keep jobs. Monitor 1 compares all four read APIs with a reference model after every step - a third of the update runs are sent back to back (2-4 updates, nobody waits for the explorer in between) and judged after the last; one reload in three leaves a kept job without a buildable HTTP client (CA file unreadable) - and re-checks earlier snapshots; monitor 2 records reads of 4-8 concurrent goroutines against a single writer (unique version per update) and checks each short history with porcupine against a sequential job->version map (a kept job may never be missing); monitor 3 repeats such histories under -race; monitor 4 runs WaitInit against scripted first-round arrivals (it must not return before every configured job had its first round).",
    note="Trusted: the harness' feeding of the discovery channel (what the Prometheus discovery manager would send) and porcupine v1.3.0. Updates and reloads are issued by one writer: update-reload races are outside the property. Held = held on the observed histories; porcupine timeout = inconclusive."),
  "C18": dict(engine="E6 kubernetes fake", level="exploration", ref="DESIGN.md §5 C18",
    technique="runtime monitoring on a client-go fake clientset: returned shards and the recorded API actions / objects judged; exhaustive sweep of the bounded parameter grid",
-   text="Every combination of current and requested replica count 0..12 (two-digit ordinals included), 0..2 claim templates, deletion flag, six pod-list orders and readiness masks (thorough: every subset) is executed against the real ReplicasManager / shard manager on a fake clientset loaded with claims for all ordinals of two StatefulSets and decoys with similar names. Shards must come in ordinal order with the right URL and readiness; a scale change must be exactly one update to the requested value (none if unchanged); deleted claims must be exactly those of removed ordinals when deletion is on and none otherwise; a StatefulSet in a rolling update is skipped.",
+   text="Every combination of current and requested replica count 0..12 (two-digit ordinals included), 0..2 claim templates, deletion flag, six pod-list orders and readiness masks (thorough: every subset) is executed against the real ReplicasManager / shard manager on a fake clientset loaded with claims for all ordinals of two StatefulSets and decoys with similar names. Shards must come in ordinal order with the right URL and readiness; a scale change must be exactly one update to the requested value (none if unchanged); deleted claims must be exactly those of removed ordinals when deletion is on and none otherwise; a StatefulSet in a rolling update is skipped; when the API server rejects the StatefulSet update (Conflict or server error) the count stays and no claim may be deleted.",
    note="Trusted: the client-go fake clientset as stand-in for the API server. Exhaustive within the stated bounds only; foreign pods, missing pods and nil replica counts are outside the property's quantifier."),
  "C20": dict(engine="E5 discovery/explorer", level="exploration", ref="DESIGN.md §5 C20",
    technique="runtime monitoring: per-target probe-lifecycle automaton over request events recorded at loopback targets, polling monitor on Explore.Get, POST monitor on a stub shard behind the real coordinator; race-detector pass",
-   text="The real Explore + scrape.Manager + TargetsDiscovery (and, in every second case, the real coordinator with a stub shard) run against 30-300 loopback HTTP targets with scripted latency and failing probes, with the real 5 s retry interval, while discovery updates remove and re-add targets inside the retry sleep and a reload keeps or drops a job. Every request at a target is recorded (arrival, departure, outcome, in-flight count) and judged per presence period: probed once asked for, single flight, retry not before the interval and within bounded time, silence after success, at most one probe after removal; Get reports healthy only after a success and with the payload's counts; nothing is assigned before a successful probe and the first assignment carries the kept count.",
+   text="The real Explore + scrape.Manager + TargetsDiscovery (and, in every second case, the real coordinator with a stub shard) run against 30-300 loopback HTTP targets with scripted latency and failing probes, with the real 5 s retry interval, while discovery updates remove and re-add targets inside the retry sleep and a reload keeps or drops a job. Every request at a target is recorded (arrival, departure, outcome, in-flight count) and judged per presence period: probed once asked for, single flight, retry not before the interval and within bounded time, silence after success, at most one probe after removal; Get reports healthy only after a success and with the payload's counts; nothing is assigned before a successful probe and the first assignment carries the kept count. Further cases: a job whose HTTP client cannot be built when its targets are first asked for and can after a later reload - every target must be probed and healthy within interval + 10 s of the repair.",
    note="Trusted: server-side timestamps at the loopback targets; harness-side bracketing of when an update reached the explorer. Upper time bounds are bounded-progress restatements with workloads sized for >2x slack; lower bounds need no tolerance."),
 })
 
@@ -111,11 +111,11 @@ CHECKS.update({
    note=E2_NOTE),
  "C06": dict(engine="E2 closed loop", level="fault_enumeration", ref="DESIGN.md §5 C06",
    technique="fault injection at harness-owned boundaries of a closed loop, enumerated single-fault placements + sampled/enumerated pairs, bounded-recovery monitor",
-   text="On six fixed small base schedules every placement of one fault (11 variants x 8 cycles x 3 shards; quick: complete on four schedules, strided on the others) plus pairs (quick: 200 sampled; thorough: every pair on the three relief schedules and 3000 sampled triples) is executed; after the perturbed phase the loop must return to the C03 converged state within the bound and stay there. The fault space of small configurations is finite, which makes enumeration the right level.",
+   text="On six fixed small base schedules every placement of one fault (11 variants x 8 cycles x 3 shards; quick: complete on four schedules, strided on the others) plus pairs (quick: 200 sampled; thorough: every pair on the three relief schedules and 3000 sampled triples) is executed; after the perturbed phase the loop must return to the C03 converged state within the bound and stay there. The restart fault is additionally applied to the REAL `kvass sidecar` process (assigned, killed, started twice more on the same volume, configuration pushed again as the coordinator would, no targets posted): the file given to Prometheus must list the resumed targets. The fault space of small configurations is finite, which makes enumeration the right level.",
    note=E2_NOTE),
  "C19": dict(engine="E1 stub-cycle", level="exploration", ref="DESIGN.md §5 C19",
    technique="differential runtime monitoring: request traces of a replica run alone vs. next to a hostile replica (both orders), multi-cycle, real coordinator",
-   text="For scripted multi-cycle scenarios the canonical trace of everything a replica's shards and manager receive is recorded when the replica is coordinated alone and when a hostile replica (listing or scaling failures, unready, out of sync, another placement of the same targets) is coordinated before or after it in the same cycles; the traces must be identical cycle by cycle. Cases whose own outcome depends on map order are detected by 30 (+100 on a mismatch) repetitions of the victim alone and discarded when those repetitions are mixed; if the victim alone behaves differently from before in 100 of 100 repetitions after the other replica has been coordinated in the same process, that is reported as state leaking between replicas (also probed after every case).",
+   text="For scripted multi-cycle scenarios the canonical trace of everything a replica's shards and manager receive is recorded when the replica is coordinated alone and when a hostile replica (listing or scaling failures, unready, out of sync, another placement of the same targets) is coordinated before or after it in the same cycles; the traces must be identical cycle by cycle. Cases whose own outcome depends on map order are detected by 30 (+100 on a mismatch) repetitions of the victim alone and discarded when those repetitions are mixed; if the victim alone behaves differently from before in 100 of 100 repetitions after the other replica has been coordinated in the same process, that is reported as state leaking between replicas (also probed after every case). The Kubernetes ReplicasManager is checked the same way on a fake clientset: one StatefulSet's scripted life (ready / not ready / rolling update, time passing through a verif-tagged hook that shifts the manager's not-ready timers) alone and next to a second StatefulSet - whether it is handed to the coordinator in a cycle must be identical.",
    note=E1_NOTE + " A mismatch is reported only if 130 executions of the victim alone all produce the reference trace."),
 })
 
@@ -126,9 +126,10 @@ ALL = ["C%02d" % i for i in range(1, 21)]
 
 
 def main():
+    # hook commits in /repo (add-only files behind //go:build verif)
     commits = []
     try:
-        out = subprocess.run(["git", "-C", "/repo", "log", "--format=%h %s"], capture_output=True, text=True).stdout
+        out = subprocess.run(["git", "-C", "/repo", "log", "--format=%H %s"], capture_output=True, text=True).stdout
         for l in out.splitlines():
             if "verif hook" in l or l.split(" ", 1)[1].startswith("verif:"):
                 commits.append(l.split()[0])
